@@ -96,6 +96,7 @@ let run () =
         | ["getmulti"; nm; _] -> Some (LGetMulti (name_of nm))
         | ["remove"; nm] -> Some (LRemove (name_of nm))
         | ["walk"; nm; n; rm; _] -> Some (LWalk (name_of nm, nat_of_int (int_of_string n), bits_of rm))
+        | ["walk"; nm; n; rm; _; _] -> Some (LWalk (name_of nm, nat_of_int (int_of_string n), bits_of rm))   (* reads between the steps: same walk *)
         | ["size"] -> Some LSize
         | ["sort"] -> Some LSort
         | ["clear"] -> Some LClear
